@@ -50,6 +50,7 @@ func c12Cases(tier string, seed int64) []core.Case {
 		}
 	}
 	cases = append(cases, core.Case{ID: "announced-is-enforced-after-renegotiation", Run: c12AnnouncedEnforced})
+	cases = append(cases, core.Case{ID: "lower-msize-with-requests-executing", Run: c12LowerWhileExecuting})
 	// the library's "akaros" switch changes the text of every Rerror (error number in hex in front): replies must
 	// obey msize all the same
 	for _, sdotu := range []bool{true, false} {
@@ -723,5 +724,90 @@ func c12AnnouncedEnforced(ctx *core.Ctx) core.Result {
 			}
 		}
 	}
+	return res
+}
+
+// c12LowerWhileExecuting: large reads are executing (held in the implementation) — alone under their tags, and as the
+// oldest member of a group of requests sharing one tag — when a Tversion lowers msize. Whatever happens to those
+// requests afterwards, nothing longer than the new msize comes out of the server after the Rversion.
+func c12LowerWhileExecuting(ctx *core.Ctx) core.Result {
+	var res core.Result
+	for round := 0; round < 8 && len(res.Violations) == 0; round++ {
+		ctx.Beat()
+		dotu := round%2 == 0
+		ver := "9P2000"
+		if dotu {
+			ver = "9P2000.u"
+		}
+		s := NewSess(Config{Dotu: dotu, Msize: 8192, Maxpend: []int{0, 4}[(round/2)%2]})
+		c := s.Dial()
+		if r, err := c.Version(8192, ver, W); err != nil || r.Msg == nil || r.Msg.Type != wire.Rversion {
+			res.Inconclusive = "c12 lower: version failed"
+			return res
+		}
+		c.Rpc(&wire.Msg{Type: wire.Tattach, Tag: 1, Fid: 1, Afid: wire.NOFID, Uname: "root", Nuname: 0}, W)
+		c.Rpc(&wire.Msg{Type: wire.Twalk, Tag: 2, Fid: 1, Newfid: 2, Wname: []string{"f"}}, W)
+		if o, err := c.Rpc(&wire.Msg{Type: wire.Topen, Tag: 3, Fid: 2, Mode: 0}, W); err != nil || o.Msg == nil || o.Msg.Type != wire.Ropen {
+			res.Inconclusive = "c12 lower: open failed"
+			return res
+		}
+		// tag 10: alone; tag 11: oldest of a group of three; tag 12: oldest of a group of two
+		groups := map[uint16]int{10: 1, 11: 3, 12: 2}
+		var gates []chan struct{}
+		for _, tg := range []uint16{10, 11, 12} {
+			p := script.NewPlan()
+			p.Gate, p.Entered = make(chan struct{}), make(chan struct{})
+			gates = append(gates, p.Gate)
+			s.Ops.SetPlan(c.ID, tg, p)
+			_ = c.Send(&wire.Msg{Type: wire.Tread, Tag: tg, Fid: 2, Offset: uint64(tg), Count: 6000 + uint32(tg)})
+			select {
+			case <-p.Entered:
+			case <-time.After(W):
+				res.Inconclusive = "c12 lower: held read never started"
+				return res
+			}
+			for k := 1; k < groups[tg]; k++ {
+				_ = c.Send(&wire.Msg{Type: wire.Tstat, Tag: tg, Fid: 1})
+			}
+		}
+		s.Ctl.WaitPassed("recv.dispatch", c.ID, 11, 3, 2*time.Second)
+		s.Ctl.WaitPassed("recv.dispatch", c.ID, 12, 2, 2*time.Second)
+		newM := []uint32{1024, 256, 4096, 600}[round%4]
+		before := len(c.All())
+		rv, err := c.Version(newM, ver, W)
+		if err != nil || rv.Msg == nil || rv.Msg.Type != wire.Rversion {
+			res.Inconclusive = "c12 lower: second version failed"
+			return res
+		}
+		for i := len(gates) - 1; i >= 0; i-- {
+			close(gates[i])
+		}
+		c.Quiesce(W)
+		time.Sleep(5 * time.Millisecond)
+		// a request of the new session, so that everything before it has been flushed out
+		if cl, err := c.Rpc(&wire.Msg{Type: wire.Tclunk, Tag: 20, Fid: 77}, W); err != nil || cl.Msg == nil {
+			res.Violate("C12;lower-while-executing;session-dead", fmt.Sprintf("after lowering msize to %d with reads executing the connection answers nothing", newM), nil)
+		}
+		res.Evals++
+		seenVersion := false
+		for _, r := range c.All()[before:] {
+			if r.Msg != nil && r.Msg.Type == wire.Rversion {
+				seenVersion = true
+				continue
+			}
+			if seenVersion && len(r.Raw) > int(rv.Msg.Msize) {
+				what := "an undecodable frame"
+				if r.Msg != nil {
+					what = fmt.Sprintf("%s tag %d", wire.TypeName(r.Msg.Type), r.Msg.Tag)
+				}
+				res.Violate("C12;oversize-frame;after-lowering-with-requests-executing", fmt.Sprintf("after the Rversion announcing msize %d the server sent %s of %d bytes (reads of 6 KB were executing at the Tversion, some with later requests waiting under their tag)", rv.Msg.Msize, what, len(r.Raw)),
+					map[string]interface{}{"dotu": dotu, "new_msize": newM, "round": round})
+				break
+			}
+		}
+		res.Sig(fmt.Sprintf("lower-while-executing|%v|%d|mp=%d", dotu, newM, (round/2)%2))
+		c.Hangup()
+	}
+	res.Sample(map[string]interface{}{"scenario": "Tversion lowering msize while 6 KB reads execute, alone and at the head of shared-tag groups"})
 	return res
 }
